@@ -162,6 +162,16 @@ class _Params(ast.NodeTransformer):
             return ast.copy_location(copy.deepcopy(self.bound[node.id]), node)
         return node
 
+    def visit_Call(self, node):
+        # a helper made general with `p=None` parameters that it only passes on as `p=p`: at a call site that does not
+        # give p, the spliced text would read `g(.., p=None)` where the reference has `g(..)` - passing None for a
+        # keyword the caller never gave is taken to be the same as leaving it out
+        node.keywords = [k for k in node.keywords if not (
+            k.arg is not None and isinstance(k.value, ast.Name) and k.value.id == k.arg and k.arg in self.bound
+            and getattr(self.bound[k.arg], '_is_default', False) and isinstance(self.bound[k.arg], ast.Constant) and self.bound[k.arg].value is None)]
+        self.generic_visit(node)
+        return node
+
 
 def _bind(fn, call, is_method):
     """{param: argument expression} or None"""
@@ -183,14 +193,16 @@ def _bind(fn, call, is_method):
     for p in params:
         if p not in bound:
             if p in pos_defaults:
-                bound[p] = pos_defaults[p]
+                bound[p] = copy.deepcopy(pos_defaults[p])
+                bound[p]._is_default = True
             else:
                 return None
     for p, d in zip(kwonly, a.kw_defaults):
         if p not in bound:
             if d is None:
                 return None
-            bound[p] = d
+            bound[p] = copy.deepcopy(d)
+            bound[p]._is_default = True
     return bound
 
 
@@ -342,6 +354,16 @@ def _first_evaluated(st):
             return None
 
 
+class _RenameParam(ast.NodeTransformer):
+    def __init__(self, old, new):
+        self.old, self.new = old, new
+
+    def visit_Name(self, node):
+        if node.id == self.old:
+            node.id = self.new
+        return node
+
+
 class _Swap(ast.NodeTransformer):
     def __init__(self, old, new):
         self.old, self.new = old, new
@@ -443,6 +465,26 @@ def splice(tree, known_top, known_methods, known_closures, top_functions):
                         body = copy.deepcopy(_body(fn))
                         bound = _bind(fn, call, kind == 'method')
                         key = (kind, getattr(owner, 'name', None) if kind != 'top' else None, fn.name)
+                        pre = []
+                        if bound is not None and isinstance(targets, list) and len(targets) == 1 and isinstance(targets[0], ast.Tuple):
+                            # `v, a, b = helper(<expression>, ..)` where the helper re-binds that parameter and hands it
+                            # back in v's place: the expression is bound to v first, the parameter reads v
+                            rets = [x for s_ in body for x in ast.walk(s_) if isinstance(x, ast.Return)]
+                            for p_ in sorted(_stores(body) & set(bound)):
+                                if isinstance(bound[p_], ast.Name) or not rets:
+                                    continue
+                                tg = targets[0].elts
+                                if not all(isinstance(r.value, ast.Tuple) and len(r.value.elts) == len(tg) for r in rets):
+                                    continue
+                                idx = [k_ for k_ in range(len(tg)) if all(isinstance(r.value.elts[k_], ast.Name) and r.value.elts[k_].id == p_ for r in rets)]
+                                if len(idx) == 1 and isinstance(tg[idx[0]], ast.Name) and \
+                                        not any(isinstance(y, ast.Name) and y.id == tg[idx[0]].id for a_ in call.args + [k.value for k in call.keywords] for y in ast.walk(a_)):
+                                    tname = tg[idx[0]].id
+                                    pre.append(ast.copy_location(ast.Assign(targets=[ast.Name(id=tname, ctx=ast.Store())], value=bound[p_]), st))
+                                    bound = dict(bound)
+                                    bound[p_] = ast.Name(id=tname, ctx=ast.Load())
+                                    body = [_RenameParam(p_, tname).visit(x) for x in body]
+                                    bound[tname] = bound.pop(p_)
                         if bound is None or not body or not _ok_args(body, bound, targets) or \
                                 _contains(body, (ast.Yield, ast.YieldFrom, ast.Global, ast.Nonlocal, ast.FunctionDef, ast.ClassDef, ast.Await), stop=()):
                             failed.add(key); i += 1; continue
@@ -465,7 +507,7 @@ def splice(tree, known_top, known_methods, known_closures, top_functions):
                             new = tail_form(body, targets)
                             if new is None:
                                 failed.add(key); i += 1; continue
-                            new = [_Params(bound).visit(x) for x in new]
+                            new = pre + [_Params(bound).visit(x) for x in new]
                         if not new:
                             new = [ast.copy_location(ast.Pass(), st)]
                         for k_, x in enumerate(new):
